@@ -10,36 +10,36 @@ CLUSTER_NOTE = ("Trusted base: the verification shims (cooperative scheduler, vi
 
 checks = {
  "C01": dict(level="model_checking", engine="cluster",
-   text="Explicit-state search over environment-event sequences (deliveries, late replies, drops, duplicates, timeouts, crashes at quiescent points and at storage-call boundaries, restarts, client submissions) of 1-5 node clusters of the real library under a controlled scheduler; every applied (index, term, bytes) on every instance is compared with the first application of that index anywhere, and per-instance index order is checked, in every reached state. In addition every goroutine schedule within a bound of 2 (quick) / 3 (thorough) non-default decisions of the SCHED scenarios named in the evidence (concurrent submissions, concurrently handled requests and replies, crash and take-over; contested election) runs under the same monitors.",
+   text="Explicit-state search over environment-event sequences (deliveries, late replies, drops, duplicates, timeouts, crashes at quiescent points and at storage-call boundaries, restarts, client submissions) of 1-5 node clusters of the real library under a controlled scheduler; every applied (index, term, bytes) on every instance is compared with the first application of that index anywhere, and per-instance index order is checked, in every reached state. Suites named file* run the same search on the library's real file-backed log, state and snapshot storages (fresh directory per execution). Suites named slow* let Apply / Snapshot / Restore calls of the state machine take environment time (messages are delivered while the library has released its lock for the call). In addition every goroutine schedule within a bound of 2 (quick) / 3 (thorough) non-default decisions of the SCHED scenarios named in the evidence (concurrent submissions, concurrently handled requests and replies, crash and take-over; contested election) runs under the same monitors.",
    technique="explicit-state DFS over the real code (replay-based, state-hash pruning, deviation-bounded)", ref="4/C01"),
  "C02": dict(level="model_checking", engine="cluster",
-   text="Same search with election-centred budgets on 2-5 voters (even sizes included), crashes around vote persistence and the seed S-split (two candidates of one term); in every state at most one node id may be in leader state per term and all AppendEntries/InstallSnapshot requests of a term must name one leader. In addition every goroutine schedule within a bound of 2 (quick) / 3 (thorough) non-default decisions of the SCHED scenarios named in the evidence (concurrent submissions, concurrently handled requests and replies, crash and take-over; contested election) runs under the same monitors.",
+   text="Same search with election-centred budgets on 2-5 voters (even sizes included), crashes around vote persistence and the seed S-split (two candidates of one term); in every state at most one node id may be in leader state per term and all AppendEntries/InstallSnapshot requests of a term must name one leader. Seeds: two candidates of one term; a voter that restarts between them. Suites named file* run the same search on the library's real file-backed log, state and snapshot storages (fresh directory per execution). In addition every goroutine schedule within a bound of 2 (quick) / 3 (thorough) non-default decisions of the SCHED scenarios named in the evidence (concurrent submissions, concurrently handled requests and replies, crash and take-over; contested election) runs under the same monitors.",
    technique="explicit-state DFS over the real code (replay-based, state-hash pruning, deviation-bounded, seeded)", ref="4/C02"),
  "C07": dict(level="model_checking", engine="cluster",
-   text="Same search; the committed set (every entry covered by any node's commit index) is tracked and every node that starts leading a later term must hold all of it and must not lose it while it leads. In addition every goroutine schedule within a bound of 2 (quick) / 3 (thorough) non-default decisions of the SCHED scenarios named in the evidence (concurrent submissions, concurrently handled requests and replies, crash and take-over; contested election) runs under the same monitors.",
+   text="Same search; the committed set (every entry covered by any node's commit index) is tracked and every node that starts leading a later term must hold all of it and must not lose it while it leads (entries committed and compacted within one step are learnt from a mirror of the log operations). Seeds: long-but-old versus short-but-new logs; re-elected leader cut off after replicating to one follower. In addition every goroutine schedule within a bound of 2 (quick) / 3 (thorough) non-default decisions of the SCHED scenarios named in the evidence (concurrent submissions, concurrently handled requests and replies, crash and take-over; contested election) runs under the same monitors.",
    technique="explicit-state DFS over the real code with a committed-set monitor", ref="4/C07"),
  "C03": dict(level="model_checking", engine="cluster",
-   text="Same search with 2-3 overlapping client submissions, client give-ups, leader changes and crashes; every acknowledged future is compared with the authoritative applied order (bytes, index, term, state-machine result), every operation may appear at most once, and real-time order (acknowledged-before-invoked) must agree with applied order, in every reached state. In addition every goroutine schedule within a bound of 2 (quick) / 3 (thorough) non-default decisions of the SCHED scenarios named in the evidence (concurrent submissions, concurrently handled requests and replies, crash and take-over; contested election) runs under the same monitors.",
+   text="Same search with 2-3 overlapping client submissions, client give-ups, leader changes and crashes; every acknowledged future is compared with the authoritative applied order (bytes, index, term, state-machine result), every operation may appear at most once, and real-time order (acknowledged-before-invoked) must agree with applied order, in every reached state. Seeds: deposed leader with pending submissions; a leader stopped and restarted as the same instance while clients hold futures; a re-elected leader whose entry reaches one follower before another node wins the next term. Suites named slow* let Apply / Snapshot / Restore calls of the state machine take environment time (messages are delivered while the library has released its lock for the call). In addition every goroutine schedule within a bound of 2 (quick) / 3 (thorough) non-default decisions of the SCHED scenarios named in the evidence (concurrent submissions, concurrently handled requests and replies, crash and take-over; contested election) runs under the same monitors.",
    technique="explicit-state DFS over the real code with an incremental linearizability monitor", ref="4/C03"),
  "C04": dict(level="model_checking", engine="cluster",
-   text="Same search with crashes at quiescent points and armed at storage-call boundaries (before/after log append, truncate, term/vote write), restarts of any subset, 1-5 voters and the seed S-stale; at every acknowledgement and first application the entry must be in the persistent logs of a majority of voters; later applications are covered by the C01 monitor across crash epochs. In addition every goroutine schedule within a bound of 2 (quick) / 3 (thorough) non-default decisions of the SCHED scenarios named in the evidence (concurrent submissions, concurrently handled requests and replies, crash and take-over; contested election) runs under the same monitors.",
+   text="Same search with crashes at quiescent points and armed at storage-call boundaries (before/after log append, truncate, term/vote write), restarts of any subset, 1-5 voters and the seed S-stale; at every acknowledgement and first application the entry must be in the persistent logs of a majority of voters; later applications are covered by the C01 monitor across crash epochs, and in every later state a majority must still hold every acknowledged or applied operation (log or closed snapshot). Includes a follower that is inside Restore of a received snapshot while retransmitted chunks and new entries arrive. Suites named file* run the same search on the library's real file-backed log, state and snapshot storages (fresh directory per execution). In addition every goroutine schedule within a bound of 2 (quick) / 3 (thorough) non-default decisions of the SCHED scenarios named in the evidence (concurrent submissions, concurrently handled requests and replies, crash and take-over; contested election) runs under the same monitors.",
    technique="explicit-state DFS over the real code with storage-boundary crash injection", ref="4/C04"),
  "C05": dict(level="model_checking", engine="cluster",
    text="Untimed search (heartbeat requests and replies may be delayed without bound, partitions) with linearizable reads at any node believing to lead, including a deposed leader (seed S-deposed); a successful read must cover every write acknowledged before its invocation and non-overlapping reads must be monotone. A SCHED scenario enumerates every goroutine schedule (bound 2 / 4) inside a freshly elected leader that receives a read before its first commit.",
    technique="explicit-state DFS over the real code, per-node virtual clocks, stale-read monitor with root-cause classifier", ref="4/C05"),
  "C06": dict(level="exploration", engine="handler",
-   text="Small-scope exhaustive input enumeration: every AppendEntries request of the bounded domain (term lower/equal/higher, every prev index, every contiguous entries window, every leaderCommit) from every Log-Matching-compatible sender log against every follower state (log up to 4/5 entries over 3 terms, compacted prefix, commit index, term), plus ordered request pairs; each case calls the exported handler on a fresh real node booted from preloaded storage and checks the per-call rules of the property; the cluster explorer additionally checks pairwise log matching of persistent logs in every reached state.",
+   text="Small-scope exhaustive input enumeration: every AppendEntries request of the bounded domain (term lower/equal/higher, every prev index, every contiguous entries window, every leaderCommit) from every Log-Matching-compatible sender log against every follower state (log up to 4/5 entries over 3 terms, compacted prefix, commit index, term), plus ordered request pairs; each case calls the exported handler on a fresh real node booted from preloaded storage and checks the per-call rules of the property; the cluster explorer additionally checks pairwise log matching of persistent logs in every reached state, incl. a suite on the real file-backed log with snapshots, compaction, conflicts and restarts (a log on disk that no longer matches what was acknowledged shows as a failed restart).",
    technique="exhaustive small-scope input enumeration against the real handler + explicit-state cluster search",
    note="Trusted base: shims, in-memory storage with the file log's semantics, the oracle's reading of the property (requests contradicting the follower's committed prefix are outside the domain). Bounded by log length and 3 terms.", ref="4/C06"),
  "C08": dict(level="model_checking", engine="cluster",
-   text="Explicit-state search over one real node booted from preloaded storage (15 start states over term, vote, log) with two puppet peers: every sequence of up to 4/5 steps over injected RequestVote/AppendEntries/InstallSnapshot requests, own timeouts, every answer to its own requests, crashes at quiescent points and at storage-call boundaries, restart; plus the cluster suites. Monitors: term never decreases (replies, status, across restarts), at most one grantee per (node, term), grant implies up-to-date candidate log and a persisted vote, prevote leaves stored (term, vote) unchanged, a granted and stored vote is never replaced by an empty vote for the same term. In addition every goroutine schedule within a bound of 2 (quick) / 3 (thorough) non-default decisions of the SCHED scenarios named in the evidence (concurrent submissions, concurrently handled requests and replies, crash and take-over; contested election) runs under the same monitors.",
+   text="Explicit-state search over one real node booted from preloaded storage (15 start states over term, vote, log) with two puppet peers: every sequence of up to 4/5 steps over injected RequestVote/AppendEntries/InstallSnapshot requests, own timeouts, every answer to its own requests, crashes at quiescent points and at storage-call boundaries, restart; plus the cluster suites. Monitors: term never decreases (replies, status, across restarts), at most one grantee per (node, term), grant implies up-to-date candidate log and a persisted vote, prevote leaves stored (term, vote) unchanged, a granted and stored vote is never replaced by an empty vote for the same term. Suites named file* run the same search on the library's real file-backed log, state and snapshot storages (fresh directory per execution). In addition every goroutine schedule within a bound of 2 (quick) / 3 (thorough) non-default decisions of the SCHED scenarios named in the evidence (concurrent submissions, concurrently handled requests and replies, crash and take-over; contested election) runs under the same monitors.",
    technique="explicit-state DFS over a single real node with puppet peers (HANDLER) + cluster DFS", ref="4/C08"),
  "C19": dict(level="exploration", engine="codec",
    text="Cartesian enumeration of request/response field domains (0, 1, 2^32, max; empty/ASCII/non-ASCII ids; nil/empty/1 B/1 KiB byte slices; 0-2 entries of all three types and suffixes of 255 to 65537 entries; snapshot payloads 0 B to 8 MiB) through two real gRPC transports on loopback, the library's converters in-process, and read-back through the real file storages; received must equal sent field-wise (nil == empty bytes).",
    technique="exhaustive enumeration of a finite input domain through the real transport and storages",
    note="Trusted base: loopback TCP, gRPC, the comparison code. LogEntry.Offset is storage-only and not compared on the RPC path. 2-entry lists over real RPCs use a pairwise header design (full product in-process).", ref="4/C19"),
  "C10": dict(level="exploration", engine="sched",
-   text="Schedule enumeration on the real code: scenarios (local snapshot racing with application on a single node, sequential/concurrent submissions, 0 B to >32 KiB payloads, crash+restart from the snapshot; snapshot installation on a lagging follower racing with application, restore and compact branches) are executed under every schedule with up to 1-2 (quick) / 2-3 (thorough) non-default decisions at the library's synchronisation points; every snapshot that becomes visible must hold exactly the applied prefix up to its label and every state machine instance must always hold a duplicate-free, gap-free prefix of the applied order.",
+   text="Schedule enumeration on the real code: scenarios (local snapshot racing with application on a single node, sequential/concurrent submissions, 0 B to >32 KiB payloads, crash+restart from the snapshot; snapshot installation on a lagging follower racing with application, restore and compact branches) are executed under every schedule with up to 1-2 (quick) / 2-3 (thorough) non-default decisions at the library's synchronisation points; every snapshot that becomes visible must hold exactly the applied prefix up to its label and every state machine instance must always hold a duplicate-free, gap-free prefix of the applied order. The cluster part (snapshots with membership changes, stale suffixes, slow Snapshot / Restore / Apply calls, the real file-backed storages) checks the same in every reached state.",
    technique="stateless schedule enumeration with iterative context bounding on the real code (controlled scheduler)",
    note="Trusted base: scheduler shim, in-memory storage, recfsm. Switch points are the library's synchronisation operations (sound given C20). Bounded number of non-default decisions; fixed scenarios.", ref="4/C10"),
  "C20": dict(level="exploration", engine="sched",
@@ -70,11 +70,11 @@ checks = {
    technique="explicit-state DFS over the real code with a global virtual clock (timed mode), stale-read monitor",
    note="Synchronised clocks on an integer tick grid; at most one outstanding read per node. Trusted base as for the cluster engine.", ref="4/C17"),
  "C11": dict(level="exploration", engine="handler",
-   text="Small-scope exhaustive input enumeration: every sequence of up to 3/4 InstallSnapshot requests (two snapshots S1<S2 of one sender history cut into 1-3 chunks, every chunk in any order, duplicates, wrong offsets, lower/equal/higher term) against 6 follower log shapes (shorter, matching, conflicting at either boundary, longer and stale) x commit indices, on a real node booted from preloaded storage; per request: commit/applied/term monotone, no snapshot older than applied, committed entries beyond the label kept, applied entries equal the sender history, visible snapshot bytes equal the sender's snapshot of that label, boundary terms correct; then vote probes at the log end and a catch-up by the legitimate leader that must bring the node to exactly its history. Plus cluster suites with snapshots on.",
+   text="Small-scope exhaustive input enumeration: every sequence of up to 3/4 InstallSnapshot requests (two snapshots S1<S2 of one sender history cut into 1-3 chunks, every chunk in any order, duplicates, wrong offsets, lower/equal/higher term) against 6 follower log shapes (shorter, matching, conflicting at either boundary, longer and stale) x commit indices, on a real node booted from preloaded storage; per request: commit/applied/term monotone, no snapshot older than applied, committed entries beyond the label kept, applied entries equal the sender history, visible snapshot bytes equal the sender's snapshot of that label, boundary terms correct; cluster suites with a slow Restore (a follower inside Restore while retransmitted chunks and new entries arrive: nothing acknowledged may be lost) and on the real file-backed storages; then vote probes at the log end and a catch-up by the legitimate leader that must bring the node to exactly its history. Plus cluster suites with snapshots on.",
    technique="exhaustive small-scope request-sequence enumeration against the real handler + explicit-state cluster search",
    note="The differential twin of the design is replaced by the catch-up oracle and vote probes. One sender history of 6 entries over 3 terms.", ref="4/C11"),
  "C14": dict(level="fault_enumeration", engine="crash-cluster",
-   text="Eleven scripted cluster schedules (election and replication, conflict and truncate, vote then candidate dies, local snapshot and compaction, snapshot installation on a lagging follower with small and 33 KiB payloads, installation over a stale suffix, compaction followed by a conflict, snapshot visible before a later-term entry, same-term step-down after a vote, membership changes) run on the library's real file-backed storages through the intercepting os layer; every mutating file-system call of every node is a crash point (plus torn prefixes of writes): the node is killed there, restarted over the same directory, then 150 fault-free intervals follow. Oracle: constructors and Start succeed, the recovered log is well formed and holds what the node held, no fatal exit or panic, safety monitors hold, one leader, progress, every member catches up.",
+   text="Eleven scripted cluster schedules (election and replication, conflict and truncate, vote then candidate dies, local snapshot and compaction, snapshot installation on a lagging follower with small and 33 KiB payloads, installation over a stale suffix, compaction followed by a conflict, snapshot visible before a later-term entry, same-term step-down after a vote, membership changes) run on the library's real file-backed storages through the intercepting os layer; every mutating file-system call of every node is a crash point (plus torn prefixes of writes): the node is killed there, restarted over the same directory (second level: killed again at every mutating call of that recovery and restarted once more), then 150 fault-free intervals follow. Oracle: constructors and Start succeed, the recovered log is well formed and holds what the node held, no fatal exit or panic, safety monitors hold, one leader, progress, every member catches up.",
    technique="exhaustive crash-point enumeration over cluster schedules on the real storages, with restart and bounded-liveness continuation",
    note="Process-crash fault model, one crash per run, fixed schedules under canonical scheduling. Trusted base: vos layer, storage mirrors used by the monitors.", ref="4/C14"),
  "C15": dict(level="model_checking", engine="cluster",
